@@ -350,6 +350,10 @@ struct X<'a> {
     float_mode: usize,
     empty_zero: bool,
     rev_attrs: bool,
+    /// the optional isAtomicClockReferenced element is left out when it would be 0
+    omit_clock_flag: bool,
+    /// white space around the text of Float / Integer elements (legal: xsd numbers collapse it)
+    num_pad: &'static str,
 }
 
 impl X<'_> {
@@ -434,7 +438,9 @@ impl X<'_> {
         }
         self.open(name, &[("type", "Float".into())]);
         let s = self.fmt_f(v);
+        self.out.push_str(self.num_pad);
         self.out.push_str(&s);
+        self.out.push_str(self.num_pad);
         self.close(name);
     }
     fn int(&mut self, name: &str, v: i64) {
@@ -444,7 +450,9 @@ impl X<'_> {
             return;
         }
         self.open(name, &[("type", "Integer".into())]);
+        self.out.push_str(self.num_pad);
         self.out.push_str(&v.to_string());
+        self.out.push_str(self.num_pad);
         self.close(name);
     }
     fn structure(&mut self, name: &str) {
@@ -454,7 +462,9 @@ impl X<'_> {
     fn dt(&mut self, name: &str, d: &DateTime) {
         self.structure(name);
         self.float("dateTimeValue", d.gps);
-        self.int("isAtomicClockReferenced", d.atomic as i64);
+        if d.atomic || !self.omit_clock_flag {
+            self.int("isAtomicClockReferenced", d.atomic as i64);
+        }
         self.close(name);
     }
     fn pose(&mut self, p: &Pose) {
@@ -616,6 +626,16 @@ fn scene_xml(s: &Scene, ch: &mut dyn Choose, k: Knobs, notes: &mut Vec<String>) 
     let rev_attrs = c("xml-attr-order", 2) == 1;
     let omit_empty = c("xml-omit-empty-containers", 2) == 1;
     let codecs = c("xml-codecs-element", 2) == 1;
+    let omit_clock_flag = c("xml-omit-clock-flag", 2) == 1;
+    // white space around numeric text is left out of the menu: whether E57 readers have to accept it
+    // is not settled by anything this model is bound to (the validator refuses it, too)
+    let num_pad = "";
+    if omit_clock_flag {
+        notes.push("optional isAtomicClockReferenced omitted when 0".into());
+    }
+    if !num_pad.is_empty() {
+        notes.push(format!("white space {num_pad:?} around numeric element text"));
+    }
     for (name, on) in [
         ("E57 namespace bound to prefix e57:", prefixed),
         ("single-quoted attributes", quote == '\''),
@@ -653,6 +673,8 @@ fn scene_xml(s: &Scene, ch: &mut dyn Choose, k: Knobs, notes: &mut Vec<String>) 
         float_mode,
         empty_zero,
         rev_attrs,
+        omit_clock_flag,
+        num_pad,
     };
     match decl {
         0 => x.out.push_str("<?xml version=\"1.0\" encoding=\"UTF-8\"?>\n"),
